@@ -532,7 +532,7 @@ func c46(c *Ctx) {
 				}
 			}
 			for _, p := range producers {
-				c.Expect(trueFrom[p.Block()], p, f, "producer-sets-generated-flag", "a policy hash is produced on an arm that does not mark the hash as generated (a random hash would be used)")
+				c.Expect(leadsInto(trueFrom, p.Block()), p, f, "producer-sets-generated-flag", "a policy hash is produced on an arm that does not mark the hash as generated (a random hash would be used)")
 			}
 			c.Expect(len(producers) == 2, nil, f, "two-producers", "expected the header and channel-id producers")
 		}
@@ -566,12 +566,12 @@ func c46(c *Ctx) {
 			}
 			walkP(pflag)
 			for _, ci := range callsIn(f, CalleeX("github.com/cespare/xxhash/v2", "Sum64String")) {
-				c.Expect(ptrue[ci.Block()], ci, f, "header-hash-marks-the-policy-as-producing", "the header hash is computed but never mixed into the result")
+				c.Expect(leadsInto(ptrue, ci.Block()), ci, f, "header-hash-marks-the-policy-as-producing", "the header hash is computed but never mixed into the result")
 			}
 			for _, b := range f.Blocks {
 				for _, in := range b.Instrs {
 					if u, ok := in.(*ssa.UnOp); ok && FieldLoad(c.field(xres, "configSelector", "channelID"))(u) {
-						c.Expect(ptrue[b], in, f, "channel-id-marks-the-policy-as-producing", "the channel id is read but never mixed into the result")
+						c.Expect(leadsInto(ptrue, b), in, f, "channel-id-marks-the-policy-as-producing", "the channel id is read but never mixed into the result")
 					}
 				}
 			}
@@ -590,7 +590,7 @@ func c46(c *Ctx) {
 				continue
 			}
 			bp := breakPreds(b)
-			c.Expect(len(bp) == 1, b.Instrs[0], f, "one-terminal-stop", "expected exactly one early exit from the policy walk")
+			c.Expect(len(breakArms(b)) == 1, b.Instrs[0], f, "one-terminal-stop", "expected exactly one early exit from the policy walk")
 			for _, p := range bp {
 				for _, fs := range incomingFacts(p, b.Succs[1]) {
 					_, t := hasFact(fs, Truth(FieldLoad(c.field(xdsrsrc, "HashPolicy", "Terminal")), true))
